@@ -432,11 +432,12 @@ class LinGauss:
         """Richardson (h, h/2) central differences w.r.t. every hyper-parameter.
         -> dict with lists over parameters: lml, loo, dC (n x n float arrays), dmu, djit, err (extrapolation estimate)"""
         th = mvec(theta)
-        h = mpf("1e-10") if h is None else M(h)
+        hs = [M(v) for v in h] if isinstance(h, (list, tuple)) else [mpf("1e-10") if h is None else M(h)] * self.p  # a step per parameter, or one for all
         n = self.n_data
         res = {"lml": [], "loo": [], "dC": [], "dmu": [], "djit": [], "err": []}
         for j in range(self.p):
             D = []
+            h = hs[j]
             for hh in (h, h / 2):
                 tp = th[:]
                 tm = th[:]
